@@ -12,11 +12,16 @@ CLAIMS = {
  'C07': "all field contents/weights for sampled multi-field geometries; all amplitude/OPD values for every attribute-form combination of Plane/Pupil/Image on arrays <= 3x3/4x4; pixel-scale reconciliation on symbolic scales",
  'C08': "one step from every (wavefront type, plane type/class) against the table parsed from the docs; every program of length <= 3/4 over 16 operations from 3 start types (finite, enumerated completely); symbolic field data/optics show a single path per step",
  'C09': "all amplitude/OPD/optics scalars for FFT grids 2..5/8 per axis of both parities, sampled accepted output shapes, scratch buffers exact/larger/smaller with arbitrary content, tilt routes, wavelength free inside the rounding band",
+ 'C10': "40 public entry points on caller-owned symbolic arrays/objects (element terms before = after, real numpy aliasing), documented in-place APIs change only their target, histories of 2-3 calls (plane reuse, interleaved dft2 on a shared coordinate cache, repeated tilt fitting by two routes, spectrum reuse)",
  'C11': "symbolic Noll index j <= 45/120 (case split decided by z3 with the exact real square root), radial polynomials n <= 10/16 for all rho incl. |R| <= 1 on [0,1] and exact orthogonality integrals, mode values j <= 21/45 for all (rho, theta), default coordinates on sampled/all supports of arrays <= 3x3",
  'C12': "all coefficient vectors and all OPDs (box [-1,1]) for sampled ordered mode subsets (<= 3 of Noll 1..6 / <= 4 of 1..11) on four mask families, both normalisations, default and supplied coordinates; linear real arithmetic with 1e-9 tolerance",
  'C13': "all values, fill values and scalar/vector operands for sampled (grid pair, operator, sampling, unit pair) configurations over an enumerated exact-rational grid family (lengths <= 4/6), 4 operators (+ integer powers), 16 unit pairs",
  'C14': "all 64 wavelength-unit and 27 flux-unit triples (exhaustive) on symbolic fluxes/wavelengths; Spectrum.to on symbolic grids of length <= 3/4 in every (from, to, valueunit) combination; Planck radiance/exitance for all wavelengths and temperatures in all 12 unit pairs",
  'C15': "integrate with symbolic limits (split by the explorer) on 6 grids, linearity/additivity/exactness; bin for all non-negative values on 3 grids x 3 centre sets x end treatments x methods; every program of <= 2/3 resizing operations with symbolic arguments",
+ 'C16': "all photon cubes/QE/electron frames/gains/saturation capacities for every QE representation and unit, Bayer patterns (4 + sampled 2x2/3x3 strings) x tiles x oversample 1..3/4, all four gain forms and polynomial orders <= 3, dtypes, warning behaviour",
+ 'C17': "bookkeeping clauses only (pixel scale / s, ceil(n s) samples, mask structure and slices, 1/s amplitude factor against the real scipy spline weights, identity at s = 1, untouched original, resample = rescale(pixelscale/p), extent within one sample) for symbolic amplitude/OPD/pixel scale and 8/10 exact-rational scale factors; interpolation-accuracy clauses are outside",
+ 'C18': "symbolic seed and signals: results are the documented functions of contract-modelled draws (Poisson/normal/lognormal), rejections of negative counts, no use of the global generator, power_spectrum zero outside the mask with exact RMS on masks of any aspect ratio (sizes with exact trigonometry), cosmic-ray count; sample statistics and the ray tracer are outside",
+ 'C19': "all non-negative images (box [0,1]) of every aspect ratio with sides in {1,2,3,4}(,6), oversample 1..3, five smear angles, symbolic extents and pixel scales: shape, non-negativity, output = circular convolution with the analytic transfer function (pixel), total kept, translation equivariance, identity at zero extent, unit equivalence, zero image",
  'C20': "pad: all contents for every shape pair <= 4/5 (cubes <= 3/4); subarray: unbounded symbolic shifts; boundary family on sampled/all supports <= 3x3 with symbolic values; rebin; drawn shapes with symbolic radius/size/shift; hexagonal segments on a symbolic real sample position, radius and gap",
 }
 NA = {}
